@@ -63,16 +63,16 @@ func Kinds(env *model.Env, t *model.Type) int {
 	case model.KOptional:
 		return jNull | Kinds(env, t.Elem)
 	case model.KUnion:
-		if UnionIsSimple(env, t) {
-			k := 0
-			for _, c := range t.Cases {
-				k |= Kinds(env, c)
-			}
-			return k
+		// a union that is a case of another union (through an alias): the document's rule speaks of "the"
+		// JSON datatype of a case and says nothing about a case that has several. Taken here: every datatype
+		// any of its cases can produce, plus object when it is itself written with tags (an
+		// over-approximation, which is also what yardl computes; see CaseIsUnion for what is asserted)
+		k := 0
+		for _, c := range t.Cases {
+			k |= Kinds(env, c)
 		}
-		k := jObject
-		if t.HasNull() {
-			k |= jNull
+		if !UnionIsSimple(env, t) {
+			k |= jObject
 		}
 		return k
 	case model.KVector:
@@ -90,6 +90,23 @@ func Kinds(env *model.Env, t *model.Type) int {
 		return jArray
 	}
 	return jObject
+}
+
+// CaseIsUnion: some case of the union is itself a union or an optional (possible through an alias only). The
+// documented tagging rule does not cover such unions; whether they are written with tags is not asserted.
+func CaseIsUnion(env *model.Env, t *model.Type) bool {
+	if t.Kind != model.KUnion {
+		return false
+	}
+	for _, c := range t.Cases {
+		if c == nil {
+			continue
+		}
+		if u := env.Underlying(c); u != nil && (u.Kind == model.KUnion || u.Kind == model.KOptional) {
+			return true
+		}
+	}
+	return false
 }
 
 // UnionIsSimple: "If each type case of a union serializes to a distinct JSON datatype ... the
@@ -765,8 +782,9 @@ func Match(env *model.Env, t *model.Type, v *value.Value, got any) error {
 		}
 		obj, ok := got.(map[string]any)
 		tag := Tag(t, v.Case)
-		if t.OpenCases {
-			// a union of a generic definition with a type-parameter case: tagged or untagged
+		if t.OpenCases || CaseIsUnion(env, t) {
+			// a union of a generic definition with a type-parameter case, or a union with a case that is
+			// itself a union: tagged or untagged
 			if ok && len(obj) == 1 {
 				if g, has := obj[tag]; has && Match(env, c, v.Items[0], g) == nil {
 					return nil
